@@ -468,6 +468,18 @@ def gen_program(st, flavour, tier):
                 nd["implicit"] = rp_.sample(prev, 1)         # class-level requires of the component type
             if t == "plain" and prev and rp_.random() < 0.25:
                 nd["implicit_opt"] = rp_.sample(prev, 1)     # class-level optional of the component type
+            if flavour == "C02" and t in ("plain", "rule") and nd["groups"] and not nd.get("decl_form"):
+                # dr.add_dependency(component, X) after the declaration (what spec sets do to registry points, and any
+                # caller may do to any component): X joins the FIRST at-least-one group and is bound as one more trailing
+                # argument -- also when X is already declared in another role.  (Own PRNG: older cases stay what they were.)
+                from simkit.seeds import h64 as _h64
+                ra = random.Random(_h64(st.seed, "add_late", i))
+                if ra.random() < 0.12:
+                    other = [j for j in (nd["req"] + nd["opt"] + [x for g in nd["groups"][1:] for x in g]) if j not in nd["groups"][0]]
+                    free = [j for j in prev if j not in nd["groups"][0]]
+                    pick = other if (other and ra.random() < 0.6) else free
+                    if pick:
+                        nd["add_late"] = [ra.choice(pick)]
         # ---- fault plan
         if t != "rp" and rf.random() < fl["fault"]:
             kinds = ["skip", "skip", "boom", "verr", "kerr", "none", "ce", "cpe", "cpe", "zero", "emptystr"]
@@ -711,6 +723,7 @@ def deps_of(nd):
             out.append(d)
     out.extend(nd.get("implicit_opt") or [])       # self.optional = class-level optional + the decorator's optional=
     out.extend(nd["opt"])
+    out.extend(nd.get("add_late") or [])           # dr.add_dependency() appends to self.deps
     return out
 
 
@@ -843,6 +856,8 @@ def model(case, fixed_f1=True, pool_thread=False, prior=None, disabled=()):
             continue
         req = list(nd.get("implicit") or []) + list(nd["req"])
         groups = [list(g) for g in nd["groups"]]
+        if nd.get("add_late") and groups:
+            groups[0] = groups[0] + list(nd["add_late"])      # ... and to the first at-least-one group
         if t == "rp":
             groups = [list(nd.get("impls", []))]
         mreq = [nodes[j]["name"] for j in req if not present(j)]
@@ -1153,6 +1168,11 @@ class World(object):
             for rp, more in late:
                 for im in more:
                     dr.add_dependency(rp, im)
+        for i, nd in enumerate(nodes):
+            if nd.get("add_late") and nd["groups"] and nd["type"] != "rp":
+                for j in nd["add_late"]:
+                    dr.add_dependency(objs[i], objs[j])
+                self.fired("add_dependency_on_a_declared_component")
         # enable / disable
         for i, nd in enumerate(nodes):
             if not nd["enabled"]:
@@ -1843,6 +1863,8 @@ def remove_node(case, k):
         nd["groups"] = [g for g, p in keep if g]
         nd["gpos"] = [p for g, p in keep if g]
         nd["opt"] = remap(nd["opt"])
+        if nd.get("add_late"):
+            nd["add_late"] = remap(nd["add_late"]) if nd["groups"] else []
         if nd.get("implicit"):
             nd["implicit"] = remap(nd["implicit"])
         if nd.get("implicit_opt"):
